@@ -89,6 +89,9 @@ def gen_cases(c):
         lens = [rng.choice((0, 1, 2, 100, BS_CAP - 1, BS_CAP, BS_CAP + 1, 2 * BS_CAP + 3, rng.randrange(0, 3000))) for _ in range(rng.randrange(0, 9))]
         # no hard errors here: an exception in FileStream's destructor flush during unwinding is std::terminate (C11's business)
         add("BS %s %s" % (",".join(map(str, lens)) or "-", rand_script(rng, BS_CAP, False)), ("BS", lens), "random/BufferedStream")
+    for _ in range(nb // 2):
+        lens = [rng.choice((0, 1, 2, 100, BS_CAP - 1, BS_CAP, BS_CAP + 1, 2 * BS_CAP, 2 * BS_CAP + 3, 5 * BS_CAP + 1, rng.randrange(0, 3000))) for _ in range(rng.randrange(0, 9))]
+        add("TB %s %s" % (",".join(map(str, lens)) or "-", rand_script(rng, BS_CAP, False)), ("TB", lens), "random/ThreadedBufferedStream")
     return cases
 
 
@@ -159,10 +162,10 @@ def oracle(c, line, meta, o):
         _, d, off, f = meta
         if kind != "OK" or res != overwrite(f, off, d):
             bad("file after ErsatzPWrite differs from the expected contents")
-    elif op == "BS":
+    elif op in ("BS", "TB"):
         want = b"".join(data_pat(n, i) for i, n in enumerate(meta[1]))
         if kind != "OK" or sink != want:
-            bad("FileStream delivered %d bytes, the writes total %d; first difference at %s" % (
+            bad("the stream delivered %d bytes, the writes total %d; first difference at %s" % (
                 len(sink or b""), len(want), next((i for i, (a, b) in enumerate(zip(sink or b"", want)) if a != b), "length")))
 
 
